@@ -325,6 +325,25 @@ func runC20(r *core.Run) {
 				}
 			}
 		}
+		// whites strictly inside the triangle but close to a primary or to an edge (barycentric weight of
+		// one primary 0.999 / 0.9995, of one primary 0.001)
+		for k := 0; k < 3; k++ {
+			for _, wts := range [][3]float64{{0.999, 0.0005, 0.0005}, {0.9995, 0.0003, 0.0002}, {0.99, 0.005, 0.005}, {0.001, 0.5, 0.499}, {0.0005, 0.9, 0.0995}} {
+				xy := sp.XY
+				var wx, wy float64
+				for j := 0; j < 3; j++ {
+					wx += wts[j] * float64(sp.XY[(k+j)%3][0])
+					wy += wts[j] * float64(sp.XY[(k+j)%3][1])
+				}
+				xy[3] = [2]float32{float32(wx), float32(wy)}
+				kind, msg, _ := c20Triangle(xy)
+				r.AddEvals(1)
+				r.NT(fmt.Sprintf("pubwhite-near-vertex/%s/%d/%v", sp.Name, k, wts))
+				if kind != "" {
+					r.Violate("triangle", kind+"/white-near-vertex-or-edge", sp.Name+fmt.Sprintf(" with the white at barycentric weights %v from primary %d on: ", wts, k)+msg, c20Case{Kind: kind, XY: xy})
+				}
+			}
+		}
 		// the standard whites as the library itself tabulates them (ciexyy.D50 / D65), exact and moved
 		for _, w := range []ciexyy.Color{ciexyy.D50, ciexyy.D65} {
 			for _, d := range []float32{0, 1e-6, -1e-5, 1.5e-5, -1e-4} {
@@ -529,6 +548,25 @@ func runC20(r *core.Run) {
 				break
 			}
 		}
+	}
+	// products of structured matrices with one another (two triangular ones of the same kind, two
+	// rotations, a permutation and a diagonal one ...): pairs a random matrix never forms
+	{
+		var np int64
+		for i, a := range structured {
+			for j := i % 3; j < len(structured); j += 3 {
+				b := structured[j]
+				got, want := libMat(a.MulM(b)), libMat(a).Mul(libMat(b))
+				np++
+				if d := got.MaxAbsDiff(want); !(d <= 1e-12*math.Max(1e-300, matNormProd(libMat(a), libMat(b)))) {
+					aa, bb := a, b
+					r.Violate("algebra", "mulm/structured-pair", fmt.Sprintf("%v.MulM(%v) differs from the matrix product by %.3g", a, b, d), c20Case{Kind: "mulm", M: &aa, O: &bb})
+					break
+				}
+			}
+		}
+		r.AddEvals(np)
+		r.NTCount(np)
 	}
 	for _, m := range structured {
 		if kind, msg := c20Algebra(m, matrix.Matrix3{{1, 2, 3}, {4, 5, 6}, {7, 8, 10}}, matrix.Vector3{1, -2, 3}); kind != "" {
